@@ -87,6 +87,15 @@ Theorem C01_parse_serial_single (index : N) (a : amsg) (rest : bytes) :
   parse_serial index (enc_serial a ++ rest) = PMsg (4 + a_len a) (expect_serial index a).
 Proof. exact (parse_serial_enc index a rest). Qed.
 
+(* both parsers are total: the transcription in which every slice, index, `expect` and usize subtraction of the
+   Rust functions can panic never does, on any input, and equals the total model used everywhere else *)
+Theorem C01_parse_storage_never_panics (index : N) (data : bytes) :
+  parse_storage_chk index data = Ok (parse_storage index data).
+Proof. exact (parse_storage_chk_ok index data). Qed.
+Theorem C01_parse_serial_never_panics (index : N) (data : bytes) :
+  parse_serial_chk index data = Ok (parse_serial index data).
+Proof. exact (parse_serial_chk_ok index data). Qed.
+
 (* for EVERY input (no hypothesis on the bytes): the iterator terminates, does not panic unless the u32 index
    would overflow, the bytes reported as processed never exceed the input (processed + unconsumed = input,
    the unconsumed rest is a suffix), skipped <= processed, index advanced by the number of messages *)
@@ -166,6 +175,8 @@ Print Assumptions C01_iter_recovers_all_serial.
 Print Assumptions C01_expect_fields.
 Print Assumptions C01_parse_storage_single.
 Print Assumptions C01_parse_serial_single.
+Print Assumptions C01_parse_storage_never_panics.
+Print Assumptions C01_parse_serial_never_panics.
 Print Assumptions C01_run_total.
 Print Assumptions C01_run_terminates.
 Print Assumptions C01_markers_check_sound.
